@@ -151,7 +151,7 @@ func genExchange(x *X, env *sysEnv, cl *sClient, streaming bool) *exchange {
 	ex.newConn = c.Intn(4, "newconn") == 0
 	rs := &respScript{}
 	ex.resp = rs
-	rs.status = []int{200, 200, 200, 201, 204, 301, 302, 304, 400, 404, 418, 500, 502, 503, 206}[c.Intn(15, "status")]
+	rs.status = []int{200, 200, 200, 201, 204, 301, 302, 304, 400, 404, 418, 500, 502, 503, 206, 429, 401}[c.Intn(17, "status")] // (429/401/503 from the backend: statuses Helios also produces itself)
 	if len(ex.body) > 0 && !streaming && c.Intn(5, "expect-continue") == 0 {
 		ex.expect = []string{"accept", "decline"}[c.Intn(2, "expect-mode")]
 		ex.hdr = append(ex.hdr, hdrKV{"Expect", "100-continue"})
